@@ -234,6 +234,12 @@ func rulePublishAfterInsert(p *Prog, r *Report, rule string) {
 		ordNeverAfter(p, r, fn, "publish-after-insert", nil, addSeq, "db.addSeq", putMem, "batch.putMem", nil, "")
 		okUnlock, ackDesc := ackPoints(fn)
 		ordPrecede(p, r, fn, "publish-before-ack", nil, addSeq, "db.addSeq", okUnlock, ackDesc)
+		// the group's numbers are published before the buffer that now holds its records can be
+		// frozen: newMem records frozenSeq = db.seq, and the flush writes that number into the
+		// manifest; a rotation between the insert and addSeq freezes a sequence that is BELOW the
+		// records of the frozen buffer (they vanish at the next reopen)
+		rot := evCall("(*leveldb.DB).rotateMem", "(*leveldb.DB).newMem")
+		ordNeverAfter(p, r, fn, "publish-before-rotation", nil, putMem, "batch.putMem", rot, "rotateMem / newMem (freezing the buffer)", addSeq, "db.addSeq")
 		// the published delta is the group's total length
 		checkCallArg(p, r, fn, "delta-is-group-length", "(*leveldb.DB).addSeq", 1, mOriginAny(mCall("leveldb.batchesLen")), "batchesLen(batches)")
 	}
@@ -279,6 +285,25 @@ func ackPoints(fn *ssa.Function) (InstrPred, string) {
 			ret, ok := in.(*ssa.Return)
 			return ok && in.Block() != fn.Recover && returnIsSuccess(ret)
 		}, "a success return (unlock deferred)"
+	}
+	// single-exit form: one unlockWrite(.., err) after the insert whose error may be nil — the
+	// acknowledgement of success is that call (the rules that use it prune error edges themselves)
+	putMem := evCall("(*leveldb.Batch).putMem")
+	late := func(in ssa.Instruction) bool {
+		if !isCallTo(in, "(*leveldb.DB).unlockWrite") {
+			return false
+		}
+		if _, isD := in.(*ssa.Defer); isD {
+			return false
+		}
+		cc := callCommon(in)
+		if len(cc.Args) != 4 || isNilConst(cc.Args[3]) {
+			return false
+		}
+		return findPath(after(fn, putMem), nil, nil, func(i2 ssa.Instruction) bool { return i2 == in }) != nil
+	}
+	if countInstr(fn, late) > 0 {
+		return late, "unlockWrite(.., err) after the insert"
 	}
 	return okUnlock, "unlockWrite(.., nil)"
 }
